@@ -33,7 +33,13 @@ def main():
         print(f"VIOLATION property={pid} replay={os.path.abspath(args.replay)}")
         return 1
     tier, seed = env_tier_seed(args.tier)
-    return mod.main(tier, seed)
+    try:
+        return mod.main(tier, seed)
+    except Exception:
+        import traceback
+        traceback.print_exc()
+        print(f"TOOL-ERROR property={pid}: the checking machinery failed (see the traceback); no verdict")
+        return 2
 
 
 if __name__ == "__main__":
